@@ -256,6 +256,27 @@ def w_contain(ctx: core.Ctx, arg):
                 ctx.witness(key, 'published location scope is not inside ' + ('its own location' if gmask & mask == mask else 'an enclosing location'),
                             {'elements': values, 'scope': scope_text, 'filter': dict(zip(ELEMENTS, _attrs(g))), 'how': how})
                 break
+        # (1b) the device publishes further location-like scopes BEFORE the scope of its associated location (a second location context
+        #      descriptor, a foreign or empty sdc.ctxt.loc scope): it is still inside its location and inside every enclosing one
+        import copy as _copy
+        other_loc = _mk_loc({e: 'elsewhere' for e in ELEMENTS[:3]}, 'other.root')
+        for extra in ([other_loc.scope_string], ['sdc.ctxt.loc:'], ['sdc.ctxt.loc:/x', other_loc.scope_string]):
+            scopes2 = _copy.deepcopy(scopes)
+            scopes2.text[:] = [t for t in scopes.text if t != scope_text] + extra + [scope_text] if case % 2 else extra + list(scopes.text)
+            svc2 = Service(None, scopes2, ['http://10.0.0.1/x'], 'urn:uuid:dev', '1')
+            for gmask in (63, mask, rng.randrange(64)):
+                g = _mk_loc({e: values[e] for i, e in enumerate(ELEMENTS) if gmask >> i & 1 and e in values})
+                ctx.count('contain.multi_scope_checks')
+                try:
+                    found = g.filter_services_inside([svc2])
+                except Exception as ex:  # noqa: BLE001
+                    ctx.witness('contain.raises.' + _classify_raise(ex), f'location filter raised {type(ex).__name__}: {ex}', {'scopes': list(scopes2.text)})
+                    break
+                if not (found and found[0] is svc2):
+                    ctx.witness('contain.not_inside.other_location_scope_first', 'a device that publishes the scope of its location after another '
+                                'sdc.ctxt.loc scope is not found inside its location', {'elements': values, 'scopes': list(scopes2.text),
+                                                                                       'filter': dict(zip(ELEMENTS, _attrs(g)))})
+                    break
         # (2) inside no location that differs in a specified element
         for i, e in enumerate(ELEMENTS):
             gmask = rng.randrange(64)  # the other elements: a random generalisation of loc (identical or None)
